@@ -144,8 +144,8 @@ func runTunnel(r Round) *outcome {
 		}
 	}
 	rc.release()
-	if !rc.wait(10 * time.Second) {
-		o.failf("C16/client-tunnel/close-did-not-return", "a Close call or completion path did not return within 10s")
+	if ok, dump := rc.waitBlocked(10*time.Second, 40*time.Second); !ok {
+		o.failf("C16/client-tunnel/close-did-not-return", "a Close call or completion path did not return within 10s"+"; goroutines inside the code under test:\n%s", dump)
 		return o
 	}
 	rc.measure(o)
@@ -154,7 +154,7 @@ func runTunnel(r Round) *outcome {
 	app.Close()
 	peer.Close()
 	// the close body runs on exactly one goroutine; wait for it to finish
-	pollUntil(2*time.Second, func() bool { return tn.GetState() == ctunnel.TunnelStateClosed && onClosed.get() >= 1 })
+	pollUntilBlocked(2*time.Second, 20*time.Second, func() bool { return tn.GetState() == ctunnel.TunnelStateClosed && onClosed.get() >= 1 })
 	leaks := settle(tunnelPrefixes, base, 2*time.Second)
 
 	if n := onClosed.get(); n != 1 {
